@@ -219,25 +219,32 @@ def check_segment_predicates(ctx: Ctx) -> None:
 
 
 def _tag_predicates(ctx: Ctx) -> set[str]:
-    """Functions of tag_handling whose result depends only on tag delimiters of the line (transitively)."""
+    """Functions of tag_handling whose verdict comes from comparing the ends of a line with tag delimiters (directly, through
+    constants / tuples of delimiters, or through other such predicates) and that do not consult the block-content heuristics."""
+    from .atomic import _affix_tests, _records
+
     repo, prog = ctx.repo, ctx.prog
+    folder, recs, _table = _records(ctx)
+    delims: set[str] = set()
+    for r in recs.values():
+        for k in ("open_delim", "close_delim"):
+            v = r.fields.get(k)
+            if isinstance(v, str) and v:
+                delims |= {v, v + " /"}
     out: set[str] = set()
     mod = repo.module(TH)
     for name, d in mod.defs.items():
-        if isinstance(d, FuncInfo) and not isinstance(d.node, ast.Lambda):
-            txt = ast.unparse(d.node)
-            if ("open_delim" in txt or "close_delim" in txt) and "block_content" not in txt and d.name.startswith(("line_", "_is_")):
-                out.add(d.qual)
-    changed = True
-    while changed:
-        changed = False
-        for name, d in mod.defs.items():
-            if isinstance(d, FuncInfo) and d.qual not in out and d.name.startswith(("line_", "_is_")):
-                calls = [prog.resolve_call(d, c) for c in walk_no_nested(d.node) if isinstance(c, ast.Call)]
-                repo_calls = [t[0].qual for t in calls if isinstance(t, list)]
-                if repo_calls and all(q in out for q in repo_calls):
-                    out.add(d.qual)
-                    changed = True
+        if not (isinstance(d, FuncInfo) and not isinstance(d.node, ast.Lambda)):
+            continue
+        reach = reachable_functions(prog, [d])
+        if any("block_content" in q or "block_heuristics" in q for q in reach):
+            continue
+        got = _affix_tests(ctx, folder, d)
+        tested = got["startswith"] | got["endswith"]
+        # a boolean predicate on one line
+        rets = prog.flow(d).cfg.returns()
+        if tested and tested <= delims and rets and len(d.params) == 1:
+            out.add(d.qual)
     return out
 
 
